@@ -13,6 +13,8 @@ pub mod plan;
 pub mod record;
 pub mod runa;
 pub mod runb;
+#[cfg(feature = "tracing")]
+pub mod runt;
 pub mod shrink;
 pub mod world;
 pub mod worldc;
